@@ -51,6 +51,7 @@ func SetMapOrder(mode int, seed uint64, only []string) {
 func ClearMapOrder() { curMapOrder.Store((*mapOrder)(nil)) }
 
 func MapKeys[K comparable, V any](m map[K]V, site string) []K {
+	w.ops += uint64(len(m)) + 1
 	keys := make([]K, 0, len(m))
 	for k := range m {
 		keys = append(keys, k)
